@@ -30,9 +30,11 @@
 (*                           and some emitted entry was not applied        *)
 (*   unreported-loss         an appended payload was neither emitted nor   *)
 (*                           reported dropped (healthy runs)               *)
-(*   gap-survived-checkpoint the connection stayed up across an untouched  *)
-(*                           checkpoint although what was applied is not   *)
-(*                           exactly the writer's stream up to it          *)
+(*   gap-survived-checkpoint an entry the writer emitted (and did not      *)
+(*                           report as dropped) was never applied, the     *)
+(*                           connection stayed up across an untouched      *)
+(*                           checkpoint covering it and the reader went on *)
+(*                           applying later entries / stayed connected     *)
 (*   sequence-diverged       the reader's last sequence is not the         *)
 (*                           writer's sequence of the last applied entry   *)
 (***************************************************************************)
@@ -60,9 +62,13 @@ SeqOf(h)    == (CHOOSE i \in 1..Len(stream) : stream[i].t = "e" /\ stream[i].h =
 Hs(s)       == [i \in 1..Len(s) |-> s[i].h]
 If(c, code) == IF c THEN {code} ELSE {}
 
-\* the connection is known to have survived the pending checkpoint: what was applied before it
-\* must be exactly the writer's stream up to it
-CpCheck == If(cpq > 0 /\ applied # Hs(Entries(SubSeq(stream, 1, cpq))), "gap-survived-checkpoint")
+\* the connection is known to have survived the pending checkpoint: every entry the writer emitted
+\* before that checkpoint must have been applied, in the writer's order, before anything else
+\* (only that: a checkpoint that was merely delayed behind later entries certifies a prefix of what
+\* has been applied, which breaks nothing; a missing covered entry is a gap the writer never reported)
+Covered == Hs(Entries(SubSeq(stream, 1, cpq)))
+CpCheck == If(cpq > 0 /\ ~(Len(applied) >= Len(Covered) /\ SubSeq(applied, 1, Len(Covered)) = Covered),
+              "gap-survived-checkpoint")
 
 PAppend(h) == /\ appended' = appended \cup {h}
               /\ viol' = viol \cup If(h \in appended, "trace-duplicate-append")
